@@ -626,6 +626,20 @@ def tcpReply {β ν δ : Type} (lib : Lib β ν δ) (m : Msg ν) (heap : Heap β
     | .ok b => tcpStage s b
     | _ => (s, false)
 
+/-! ### what the byte-level model of a primitive takes for granted
+
+`PR.ok bs` says a primitive WRITES `bs`.  A primitive may instead account for
+a span it does not write (`packDataA` on a 16-byte non-IPv4 address:
+`copy(msg[off:], a.To4())` copies nothing, `off += 4`).  A masked write makes
+that expressible: `none` = the position is skipped, the buffer keeps its byte. -/
+
+/-- store a partly written span at `buf[off:]`. -/
+def writeMasked (buf : Bytes) (off : Nat) (span : List (Option UInt8)) : Bytes :=
+  writeAt buf off ((span.zipIdx).map fun (o, i) => o.getD (buf.getD (off + i) 0))
+
+/-- the span as a fresh zeroed buffer shows it (what `dns.Msg.Pack` returns). -/
+def spanInFresh (span : List (Option UInt8)) : Bytes := span.map fun o => o.getD 0
+
 /-! ### the pool -/
 
 /-- pooled states are clean: nothing of a message left, dictionary absent or empty. -/
